@@ -3,7 +3,7 @@
 # False-alarm test: applies each behaviour-preserving patch in a scratch worktree of /repo's HEAD (one per lane, under
 # /tmp/evalbenign, removed at the end) and runs the quick tier of all 19 checks against it. Nothing is applied to
 # /repo. Output: one line per patch, "<name> C01=<exit> ... C19=<exit>" (0 = silent, 1 = ALARM, 2 = inconclusive, e.g. the
-# patch no longer applies to HEAD or no longer builds on top of a later fix).
+# patch no longer applies to HEAD or no longer builds on top of a later fix). CHECKS="02 09 17" restricts the checks.
 SEED=${1:-0}; LANES=${2:-4}; OUT=${3:-/tmp/evalbenign.log}; shift 3
 B=/tmp/evalbenign; rm -rf $B; mkdir -p $B
 printf '%s\n' "$@" > $B/list
@@ -17,7 +17,7 @@ for LN in $(seq 0 $((LANES-1))); do
       cd $W && git checkout -q -- . && git clean -fdq bitbybit/src
       if ! git apply $p 2>/dev/null; then echo "$name does-not-apply-to-HEAD"; continue; fi
       line="$name"
-      for c in 01 02 03 04 05 06 07 08 09 10 11 12 13 14 15 16 17 18 19; do
+      for c in ${CHECKS:-01 02 03 04 05 06 07 08 09 10 11 12 13 14 15 16 17 18 19}; do
         (cd /verif && VERIF_SEED=$SEED BBV_NO_SHRINK=1 BBV_NO_EVIDENCE=1 BBV_REPLAY_DIR=$B/replays$LN/$name BBV_WORK_DIR=$B/work$LN BBV_MACRO_PATH=$W/bitbybit BBV_TARGET_DIR=$B/t$LN ${BBV_BIN:-/verif/target/engine/release/bbv} check C$c --tier quick > $B/last$LN.C$c.out 2>&1)
         rc=$?; line="$line C$c=$rc"
         [ $rc = 1 ] && { mkdir -p $B/alarms; cp $B/last$LN.C$c.out $B/alarms/$name.C$c.out; }
